@@ -27,6 +27,7 @@ with rotating boundary sizes (tree encoding), and a CRC-32 collision overwrite.
 """
 from __future__ import annotations
 
+import functools
 import hashlib
 import itertools
 import json
@@ -62,6 +63,7 @@ PRELOAD_MAX = 0xFFFF
 # ---------------------------------------------------------------------------------------------
 # names: independent splitting + representability rule
 
+@functools.lru_cache(maxsize=None)
 def split_name(s: str):
     """(folder, stem, ext) of a VPK path, or None when the name is not representable.
 
@@ -91,6 +93,7 @@ def join_name(folder: str, stem: str, ext: str) -> str:
     return folder + '/' + out if folder else out
 
 
+@functools.lru_cache(maxsize=None)
 def form_of(name: str, form: str):
     folder, stem, ext = split_name(name)
     if form == 's':
@@ -636,6 +639,8 @@ def sizes_for(limit, level: str) -> list:
         return [0, lim, lim + 1, 65536]
     if level == 'two':
         return [(lim or 0) + 1, 65536]
+    if level == 'one':
+        return [(lim or 0) + 1]
     raise AssertionError(level)
 
 
@@ -674,17 +679,25 @@ def ops_for(model: Model, menu: dict, limit) -> list:
                     out.append(('add', nm, FORMS[(i + 2) % 3], sizes[1], 0))
         out.append(('flush',))
     if model.disk is not None:
-        out.append(('reopen', 'r'))
+        if menu['ro']:
+            out.append(('reopen', 'r'))
         out.append(('reopen', 'a'))
     out.append(('reopen', 'w'))
     return out
 
 
 LATTICES = {
-    # name: (menu, quick depth, thorough depth) - depth counts operations after the initial open
-    'wide': ({'names': NAMES[:3], 'sizes': 'edge', 'errors': True, 'new': True}, 3, 4),
-    'deep': ({'names': NAMES[:2], 'sizes': 'two', 'errors': False, 'new': False}, 4, 6),
-    'full': ({'names': NAMES, 'sizes': 'full', 'errors': True, 'new': True}, 2, 3),
+    # name: (menu, initial open modes, quick depth, thorough depth); depth counts operations after the initial open.
+    # wide : boundary sizes, three names sharing extension / folder, every rejected operation, read-only handles
+    'wide': ({'names': NAMES[:3], 'sizes': 'edge', 'errors': True, 'new': True, 'ro': True}, ('w', 'a'), 3, 4),
+    # deep : long histories through flush / reopen 'a' / reopen 'w' with two files that both have an archive part
+    'deep': ({'names': NAMES[:2], 'sizes': 'two', 'errors': False, 'new': False, 'ro': False}, ('w',), 5, 7),
+    # sizes: every ordered pair (triple) of sizes of the full menu on two names
+    'sizes': ({'names': NAMES[:2], 'sizes': 'full', 'errors': False, 'new': False, 'ro': False}, ('w',), 2, 3),
+    # names: all six names (no extension, empty stem, nested folders): directory tree clean-up on delete
+    'names': ({'names': NAMES, 'sizes': 'one', 'errors': False, 'new': False, 'ro': False}, ('w',), 3, 4),
+    # full : all names x all sizes x all rejected operations, shallow
+    'full': ({'names': NAMES, 'sizes': 'full', 'errors': True, 'new': True, 'ro': True}, ('w', 'a'), 1, 2),
 }
 
 
@@ -760,7 +773,7 @@ def shard(spec) -> core.Acc:
 # ---------------------------------------------------------------------------------------------
 # explorer
 
-def bfs(ctx: core.Ctx, lattice: str, depth: int, deadline: float, stats: dict) -> None:
+def bfs(ctx: core.Ctx, lattice: str, roots: tuple, depth: int, deadline: float, stats: dict) -> None:
     """Level-synchronous parallel BFS with global deduplication.
 
     Canonical form of a state = digest of (configuration, handle mode, reference model `mem`, reference model
@@ -775,7 +788,7 @@ def bfs(ctx: core.Ctx, lattice: str, depth: int, deadline: float, stats: dict) -
     oracle are reported and not expanded (their continuation has no defined expectation)."""
     nw = core.workers()
     visited: set = set()
-    frontier = [[ci, [['open', m]]] for ci in range(len(CONFIGS)) for m in ('w', 'a')]
+    frontier = [[ci, [['open', m]]] for ci in range(len(CONFIGS)) for m in roots]
     outdir = os.path.join(ctx.scratch, f'bfs_{lattice}')
     os.makedirs(outdir, exist_ok=True)
     per_level = []
@@ -883,8 +896,8 @@ def run(ctx: core.Ctx) -> None:
     q = ctx.quick
     deadline = time.time() + (150 if q else 1500)
     stats: dict = {}
-    for lattice, (menu, dq, dt) in LATTICES.items():
-        bfs(ctx, lattice, dq if q else dt, deadline, stats)
+    for lattice, (menu, roots, dq, dt) in LATTICES.items():
+        bfs(ctx, lattice, roots, dq if q else dt, deadline, stats)
     sw = sweep_histories(q)
     n_names = sw.pop('_names_count')
     shards = []
@@ -903,20 +916,20 @@ def run(ctx: core.Ctx) -> None:
     ctx.coverage_extra['lattices'] = stats
     ctx.coverage_extra['sweep_histories'] = {k2[len('histories_'):]: v for k2, v in c.items() if k2.startswith('histories_')}
     desc = []
-    for lattice, (menu, dq, dt) in LATTICES.items():
-        desc.append(f"'{lattice}': depth {dq if q else dt} after the initial open('w'|'a'), names {menu['names']}, "
-                    f"sizes '{menu['sizes']}'" + (', incl. operations the model rejects (existing/missing name)'
-                                                  if menu['errors'] else ''))
+    for lattice, (menu, roots, dq, dt) in LATTICES.items():
+        desc.append(f"'{lattice}': depth {dq if q else dt} after the initial open({'|'.join(roots)}), names {menu['names']}, "
+                    f"sizes '{menu['sizes']}'" + (', incl. new_file, operations the model rejects (existing/missing name) and '
+                                                  'read-only handles' if menu['errors'] else ''))
     ctx.rule = (
         'Level-synchronous BFS over operation histories of real VPK objects on tmpfs, for each of the 24 configurations '
-        '(kind dir/single x dir_data_limit None/0/4/1024 x arch_index None/0/1) and both initial modes; alphabet add_file / '
+        '(kind dir/single x dir_data_limit None/0/4/1024 x arch_index None/0/1) ; alphabet add_file / '
         'new_file / FileInfo.write / del / write_dirfile / reopen r,a,w (reopen r,a only once a directory has been written), '
         'all six mutations attempted on every read-only handle; name forms (string/2-tuple/3-tuple) rotate over name and '
         'operation so each name is added in one form and accessed in the other two; every transition (parent state x '
         'operation) is replayed once from scratch and the full oracle (live handle, fresh read-only open, independent '
         'directory decoder) is evaluated on the resulting state; states are merged globally by canonical form. Lattices: '
         + '; '.join(desc) + '. Size menus: edge = {0, limit, limit+1, 65536} ({0,1,65535,65536} for limit None/0), two = '
-        '{limit+1, 65536}, full = {0,1,limit-1,limit,limit+1,65535,65536,70000,300000}. Sweeps (each history checked after '
+        '{limit+1, 65536}, one = {limit+1}, full = {0,1,limit-1,limit,limit+1,65535,65536,70000,300000}. Sweeps (each history checked after '
         f'every step): all {n_names} representable names of length <= {4 if q else 5} over [a b . /] x add form x access form x '
         '{add, new_file, overwrite, reopen-a + delete}; every non-empty subset of the 6 menu names x size rotation x 24 '
         'configurations followed by reopen-a + delete/overwrite; overwrite with CRC-32-colliding data. '
